@@ -11,12 +11,10 @@ import (
 	"go/token"
 	"go/types"
 	"os"
-	"reflect"
 	"strings"
 	"unsafe"
 
 	"golang.org/x/tools/go/ssa"
-	"golang.org/x/tools/internal/typeparams"
 )
 
 // If the target program panics, the interpreter panics with this type.
@@ -126,6 +124,8 @@ func asInt64(x value) int64 {
 		return int64(x)
 	case uintptr:
 		return int64(x)
+	case sym:
+		return concSigned(cur.concretize(x.e), x.k)
 	}
 	panic(fmt.Sprintf("cannot convert %T to int64", x))
 }
@@ -146,6 +146,8 @@ func asUint64(x value) uint64 {
 		return x
 	case uintptr:
 		return uint64(x)
+	case sym:
+		return cur.concretize(x.e)
 	}
 	panic(fmt.Sprintf("cannot convert %T to uint64", x))
 }
@@ -256,12 +258,9 @@ func zero(t types.Type) value {
 		}
 		return s
 	case *types.Chan:
-		return chan value(nil)
+		return (*mchan)(nil)
 	case *types.Map:
-		if usesBuiltinMap(t.Key()) {
-			return map[value]value(nil)
-		}
-		return (*hashmap)(nil)
+		return (*smap)(nil)
 	case *types.Signature:
 		return (*ssa.Function)(nil)
 	}
@@ -274,6 +273,10 @@ func slice(x, lo, hi, max value) value {
 	switch x := x.(type) {
 	case string:
 		Len = len(x)
+		Cap = Len
+	case symstr:
+		Len = len(x.b)
+		Cap = Len
 	case []value:
 		Len = len(x)
 		Cap = cap(x)
@@ -298,9 +301,16 @@ func slice(x, lo, hi, max value) value {
 		m = asInt64(max)
 	}
 
+	if l < 0 || h < l || m < h || m > int64(Cap) {
+		if _, isarr := x.(*value); !isarr || true {
+			panic(runtimeError(fmt.Sprintf("slice bounds out of range [%d:%d:%d] with capacity %d", l, h, m, Cap)))
+		}
+	}
 	switch x := x.(type) {
 	case string:
 		return x[l:h]
+	case symstr:
+		return normStr(x.b[l:h:h])
 	case []value:
 		return x[l:h:m]
 	case *value: // *array
@@ -313,16 +323,8 @@ func slice(x, lo, hi, max value) value {
 // lookup returns x[idx] where x is a map.
 func lookup(instr *ssa.Lookup, x, idx value) value {
 	switch x := x.(type) { // map or string
-	case map[value]value, *hashmap:
-		var v value
-		var ok bool
-		switch x := x.(type) {
-		case map[value]value:
-			v, ok = x[idx]
-		case *hashmap:
-			v = x.lookup(idx.(hashable))
-			ok = v != nil
-		}
+	case *smap:
+		v, ok := x.lookup(idx)
 		if !ok {
 			v = zero(instr.X.Type().Underlying().(*types.Map).Elem())
 		}
@@ -338,6 +340,17 @@ func lookup(instr *ssa.Lookup, x, idx value) value {
 // numeric datatypes and strings.  Both operands must have identical
 // dynamic type.
 func binop(op token.Token, t types.Type, x, y value) value {
+	if isSym(x) || isSym(y) {
+		return symBinop(op, x, y)
+	}
+	if _, ok := x.(symstr); ok {
+		return symStrBinop(op, x, y)
+	}
+	if _, ok := y.(symstr); ok {
+		if isStr(x) {
+			return symStrBinop(op, x, y)
+		}
+	}
 	switch op {
 	case token.ADD:
 		switch x.(type) {
@@ -734,10 +747,10 @@ func binop(op token.Token, t types.Type, x, y value) value {
 		}
 
 	case token.EQL:
-		return eqnil(t, x, y)
+		return eqnilV(t, x, y)
 
 	case token.NEQ:
-		return !eqnil(t, x, y)
+		return vnot(eqnilV(t, x, y))
 
 	case token.GTR:
 		switch x.(type) {
@@ -806,51 +819,54 @@ func binop(op token.Token, t types.Type, x, y value) value {
 	panic(fmt.Sprintf("invalid binary op: %T %s %T", x, op, y))
 }
 
-// eqnil returns the comparison x == y using the equivalence relation
-// appropriate for type t.
-// If t is a reference type, at most one of x or y may be a nil value
-// of that type.
-func eqnil(t types.Type, x, y value) bool {
+// eqnilV returns the comparison x == y (bool or symbolic bool) using the equivalence
+// relation appropriate for type t.
+func eqnilV(t types.Type, x, y value) value {
 	switch t.Underlying().(type) {
 	case *types.Map, *types.Signature, *types.Slice:
 		// Since these types don't support comparison,
 		// one of the operands must be a literal nil.
 		switch x := x.(type) {
-		case *hashmap:
-			return (x != nil) == (y.(*hashmap) != nil)
-		case map[value]value:
-			return (x != nil) == (y.(map[value]value) != nil)
+		case *smap:
+			return (x != nil) == (y.(*smap) != nil)
 		case *ssa.Function:
 			switch y := y.(type) {
 			case *ssa.Function:
 				return (x != nil) == (y != nil)
 			case *closure:
 				return true
+			default:
+				return x == nil && false
 			}
 		case *closure:
-			return (x != nil) == (y.(*ssa.Function) != nil)
+			if yf, ok := y.(*ssa.Function); ok {
+				return (x != nil) == (yf != nil)
+			}
+			return false
 		case []value:
 			return (x != nil) == (y.([]value) != nil)
+		}
+		if isNativeFunc(x) || isNativeFunc(y) {
+			return false
 		}
 		panic(fmt.Sprintf("eqnil(%s): illegal dynamic type: %T", t, x))
 	}
 
-	return equals(t, x, y)
+	return equalsV(t, x, y)
 }
 
 func unop(instr *ssa.UnOp, x value) value {
 	switch instr.Op {
 	case token.ARROW: // receive
-		v, ok := <-x.(chan value)
-		if !ok {
-			v = zero(instr.X.Type().Underlying().(*types.Chan).Elem())
-		}
+		v, ok := chanRecv(x.(*mchan), instr)
 		if instr.CommaOk {
-			v = tuple{v, ok}
+			return tuple{v, ok}
 		}
 		return v
 	case token.SUB:
 		switch x := x.(type) {
+		case sym:
+			return symUnop(token.SUB, x)
 		case int:
 			return -x
 		case int8:
@@ -883,11 +899,29 @@ func unop(instr *ssa.UnOp, x value) value {
 			return -x
 		}
 	case token.MUL:
-		return load(typeparams.MustDeref(instr.X.Type()), x.(*value))
+		if sa, ok := x.(symAddr); ok {
+			return sa.load()
+		}
+		px, ok := x.(*value)
+		if !ok {
+			if np, ok := x.(nativePtr); ok {
+				return np.load()
+			}
+			panic(fmt.Sprintf("load through %T", x))
+		}
+		if px == nil {
+			panic(runtimeError("invalid memory address or nil pointer dereference"))
+		}
+		return load(mustDeref(instr.X.Type()), px)
 	case token.NOT:
+		if sx, ok := x.(sym); ok {
+			return symUnop(token.NOT, sx)
+		}
 		return !x.(bool)
 	case token.XOR:
 		switch x := x.(type) {
+		case sym:
+			return symUnop(token.XOR, x)
 		case int:
 			return ^x
 		case int8:
@@ -960,35 +994,39 @@ func callBuiltin(caller *frame, callpos token.Pos, fn *ssa.Builtin, args []value
 		if len(args) == 1 {
 			return args[0]
 		}
-		if s, ok := args[1].(string); ok {
+		if isStr(args[1]) {
 			// append([]byte, ...string) []byte
-			arg0 := args[0].([]value)
-			for i := 0; i < len(s); i++ {
-				arg0 = append(arg0, s[i])
-			}
-			return arg0
+			return appendLogged(args[0].([]value), strBytes(args[1]))
 		}
 		// append([]T, ...[]T) []T
-		return append(args[0].([]value), args[1].([]value)...)
+		return appendLogged(args[0].([]value), args[1].([]value))
 
 	case "copy": // copy([]T, []T) int or copy([]byte, string) int
 		src := args[1]
-		if _, ok := src.(string); ok {
-			params := fn.Type().(*types.Signature).Params()
-			src = conv(params.At(0).Type(), params.At(1).Type(), src)
+		if isStr(src) {
+			src = strBytes(src)
 		}
-		return copy(args[0].([]value), src.([]value))
+		dst := args[0].([]value)
+		if theInterp.logging {
+			n := len(dst)
+			if len(src.([]value)) < n {
+				n = len(src.([]value))
+			}
+			for k := 0; k < n; k++ {
+				theInterp.logStore(&dst[k])
+			}
+		}
+		return copy(dst, src.([]value))
 
 	case "close": // close(chan T)
-		close(args[0].(chan value))
+		chanClose(args[0].(*mchan), caller)
 		return nil
 
 	case "delete": // delete(map[K]value, K)
 		switch m := args[0].(type) {
-		case map[value]value:
-			delete(m, args[1])
-		case *hashmap:
-			m.delete(args[1].(hashable))
+		case *smap:
+			theInterp.logMap(m)
+			m.delete(args[1])
 		default:
 			panic(fmt.Sprintf("illegal map type: %T", m))
 		}
@@ -1013,18 +1051,21 @@ func callBuiltin(caller *frame, callpos token.Pos, fn *ssa.Builtin, args []value
 		switch x := args[0].(type) {
 		case string:
 			return len(x)
+		case symstr:
+			return len(x.b)
 		case array:
 			return len(x)
 		case *value:
 			return len((*x).(array))
 		case []value:
 			return len(x)
-		case map[value]value:
-			return len(x)
-		case *hashmap:
+		case *smap:
 			return x.len()
-		case chan value:
-			return len(x)
+		case *mchan:
+			if x == nil {
+				return 0
+			}
+			return len(x.buf)
 		default:
 			panic(fmt.Sprintf("len: illegal operand: %T", x))
 		}
@@ -1037,8 +1078,11 @@ func callBuiltin(caller *frame, callpos token.Pos, fn *ssa.Builtin, args []value
 			return cap((*x).(array))
 		case []value:
 			return cap(x)
-		case chan value:
-			return cap(x)
+		case *mchan:
+			if x == nil {
+				return 0
+			}
+			return x.cap
 		default:
 			panic(fmt.Sprintf("cap: illegal operand: %T", x))
 		}
@@ -1088,7 +1132,7 @@ func callBuiltin(caller *frame, callpos token.Pos, fn *ssa.Builtin, args []value
 
 	case "ssa:wrapnilchk":
 		recv := args[0]
-		if recv.(*value) == nil {
+		if rp, ok := recv.(*value); ok && rp == nil {
 			recvType := args[1]
 			methodName := args[2]
 			panic(fmt.Sprintf("value method (%s).%s called using nil *%s pointer",
@@ -1103,14 +1147,28 @@ func callBuiltin(caller *frame, callpos token.Pos, fn *ssa.Builtin, args []value
 	panic("unknown built-in: " + fn.Name())
 }
 
+// appendLogged appends like the built-in, recording overwritten cells of a shared backing array.
+func appendLogged(dst, src []value) []value {
+	if theInterp.logging && len(dst)+len(src) <= cap(dst) {
+		full := dst[:len(dst)+len(src)]
+		for k := len(dst); k < len(full); k++ {
+			theInterp.logStore(&full[k])
+		}
+	}
+	return append(dst, src...)
+}
+
 func rangeIter(x value, t types.Type) iter {
 	switch x := x.(type) {
-	case map[value]value:
-		return &mapIter{iter: reflect.ValueOf(x).MapRange()}
-	case *hashmap:
-		return &hashmapIter{iter: reflect.ValueOf(x.entries()).MapRange()}
+	case *smap:
+		if x == nil {
+			return &smapIter{m: &smap{}}
+		}
+		return &smapIter{m: x, keys: append([]value(nil), x.keys...)}
 	case string:
 		return &stringIter{Reader: strings.NewReader(x)}
+	case symstr:
+		return &symStringIter{s: x}
 	}
 	panic(fmt.Sprintf("cannot range over %T", x))
 }
@@ -1185,13 +1243,39 @@ func conv(t_dst, t_src types.Type, x value) value {
 	// widest representation (int64, uint64, float64, complex128,
 	// or string), then we convert it to the desired type.
 
+	if sx, ok := x.(sym); ok {
+		return symConv(t_dst, sx)
+	}
+	if ss, ok := x.(symstr); ok {
+		switch ut_dst := ut_dst.(type) {
+		case *types.Slice:
+			if ut_dst.Elem().Underlying().(*types.Basic).Kind() == types.Byte {
+				return append([]value(nil), ss.b...)
+			}
+			// []rune(symbolic string): decode via the interpreted utf8 routine
+			var res []value
+			it := &symStringIter{s: ss}
+			for {
+				t := it.next()
+				if !t[0].(bool) {
+					break
+				}
+				res = append(res, t[2])
+			}
+			return res
+		case *types.Basic:
+			if ut_dst.Kind() == types.String {
+				return x
+			}
+		}
+	}
 	switch ut_src := ut_src.(type) {
 	case *types.Pointer:
 		switch ut_dst := ut_dst.(type) {
 		case *types.Basic:
 			// *value to unsafe.Pointer?
 			if ut_dst.Kind() == types.UnsafePointer {
-				return unsafe.Pointer(x.(*value))
+				return unsafePtr{x}
 			}
 		}
 
@@ -1200,16 +1284,16 @@ func conv(t_dst, t_src types.Type, x value) value {
 		switch ut_src.Elem().Underlying().(*types.Basic).Kind() {
 		case types.Byte:
 			x := x.([]value)
-			b := make([]byte, 0, len(x))
-			for i := range x {
-				b = append(b, x[i].(byte))
-			}
-			return string(b)
+			return normStr(append([]value(nil), x...))
 
 		case types.Rune:
 			x := x.([]value)
 			r := make([]rune, 0, len(x))
 			for i := range x {
+				if sr, ok := x[i].(sym); ok {
+					r = append(r, rune(int32(cur.concretize(sr.e))))
+					continue
+				}
 				r = append(r, x[i].(rune))
 			}
 			return string(r)
@@ -1251,6 +1335,9 @@ func conv(t_dst, t_src types.Type, x value) value {
 		}
 
 		// unsafe.Pointer -> *value
+		if up, ok := x.(unsafePtr); ok {
+			return up.p
+		}
 		if ut_src.Kind() == types.UnsafePointer {
 			// TODO(adonovan): this is wrong and cannot
 			// really be fixed with the current design.
